@@ -1,3 +1,4 @@
+import Shentu.Gen.CvmBridge
 import Shentu.Proofs.BankLemmas
 import Shentu.Proofs.OracleLemmas
 import Shentu.Proofs.GovLemmas
@@ -15,6 +16,38 @@ open Shentu
 
 /-- the primitives -/
 theorem inv_transfer (l : Ledger) (a b : Addr) (c : Coins) (h : l.Inv) : (l.move a b c).Inv := Ledger.inv_move l a b c h
+/-! ## the bridge between the VM's account cache and the bank, pinned (regenerated on every run) -/
+
+/-- `State.UpdateAccount`: the write-back of one cached account sets the BOND-denomination balance only (`SetBalance`, every other
+    denomination is left alone), refuses to raise the balance of a blocked (module) address, and creates the auth account if there
+    is none -/
+theorem tie_write_back : Gen.CvmBridge.allFound = true ∧ Gen.CvmBridge.updateAccount =
+    ["if updatedAccount == nil", "call s.ak.GetAccount(s.ctx, address)", "if account == nil",
+     "call s.ak.NewAccountWithAddress(s.ctx, address)", "if len(updatedAccount.WASMCode) > 0",
+     "call s.store.Set(types.CodeStoreKey(updatedAccount.Address), s.cdc.MustMarshalBinaryBare(&cvmCode))",
+     "if s.bk.BlockedAddr(address) && updatedAccount.Balance > s.bk.GetBalance(s.ctx, address, bondDenom).Amount.Uint64()",
+     "call s.bk.BlockedAddr(address)", "call s.bk.GetBalance(s.ctx, address, bondDenom)",
+     "call s.bk.SetBalance(s.ctx, address, sdk.NewInt64Coin(bondDenom, int64(updatedAccount.Balance)))",
+     "call s.ak.SetAccount(s.ctx, account)", "return s.SetAddressMeta(updatedAccount.Address, updatedAccount.ContractMeta)",
+     "call s.SetAddressMeta(updatedAccount.Address, updatedAccount.ContractMeta)"] := by decide
+
+/-- `State.RemoveAccount` (SELFDESTRUCT): code, ABI and metadata are deleted and the destroyed account's bond balance is set to zero
+    (the VM has credited the beneficiary in its cache) -/
+theorem tie_remove_account : Gen.CvmBridge.removeAccount =
+    ["call s.ak.GetAccount(s.ctx, address.Bytes())", "if account == nil", "call s.store.Delete(types.CodeStoreKey(address))",
+     "call s.store.Delete(types.AbiStoreKey(address))", "call s.store.Delete(types.AddressMetaStoreKey(address))",
+     "return s.bk.SetBalance(s.ctx, address.Bytes(), sdk.NewInt64Coin(s.sk.BondDenom(s.ctx), 0))",
+     "call s.bk.SetBalance(s.ctx, address.Bytes(), sdk.NewInt64Coin(s.sk.BondDenom(s.ctx), 0))"] := by decide
+
+/-- the bank wrapper: a send to an address with code goes through the VM (`cvmk.Send`), any other through the SDK keeper; a
+    multi-send to an address with code is refused -/
+theorem tie_bank_routing :
+    Gen.CvmBridge.bankSend = ["call k.GetCode(ctx, toAddr)", "if len(code) > 0", "return k.cvmk.Send(ctx, fromAddr, toAddr, amt)",
+      "call k.cvmk.Send(ctx, fromAddr, toAddr, amt)", "return k.BaseKeeper.SendCoins(ctx, fromAddr, toAddr, amt)",
+      "call k.BaseKeeper.SendCoins(ctx, fromAddr, toAddr, amt)"] ∧
+    Gen.CvmBridge.bankMultiSend = ["call k.GetCode(ctx, outAddr)", "if len(code) > 0", "return types.ErrCodeExists",
+      "return k.BaseKeeper.InputOutputCoins(ctx, inputs, outputs)", "call k.BaseKeeper.InputOutputCoins(ctx, inputs, outputs)"] := by decide
+
 theorem inv_mint (l : Ledger) (a : Addr) (c : Coins) (h : l.Inv) : (l.mint a c).Inv := Ledger.inv_mint l a c h
 theorem inv_burn (l : Ledger) (a : Addr) (c : Coins) (h : l.Inv) : (l.burn a c).Inv := Ledger.inv_burn l a c h
 
